@@ -2,7 +2,7 @@
    sumbool/sumor map to OCaml's; nat/N/positive stay Coq's inductives.  No Extract
    Constant / Extract Inductive directives of our own. *)
 From Coq Require Import ExtrOcamlBasic.
-From EB Require Import Base ListVec Diff Head Skip Tail Filter Sort PollLoop OVec OVecRun OVecDrain Obs ObsSpec ObsWaker Chain ObsConc AsyncLock AsyncGuard.
+From EB Require Import Base ListVec Diff Head Skip Tail Filter Sort PollLoop OVec OVecRun OVecDrain Obs ObsSpec ObsWaker Chain ObsConc AsyncLock AsyncGuard FullStack.
 Extraction Language OCaml.
 Extraction "model.ml"
   Diff.dmap Diff.apply Diff.ok_in Diff.apply_all Diff.apply_all_ok Diff.spec_nth Diff.oob
@@ -15,9 +15,10 @@ Extraction "model.ml"
   OVec.ovec_new OVec.ovec_mutate OVec.txn_mutate OVec.txn_begin OVec.txn_rollback OVec.txn_drop OVec.txn_commit
   OVec.subscribe OVec.drop_sub OVec.poll_sub OVec.drop_vec OVec.for_each OVec.cur_values OVec.rx_cnt
   Obs.obs_new Obs.step ObsSpec.s_new ObsSpec.sstep ObsWaker.wstep
-  Chain.head_into_parts Chain.tail_into_parts Chain.skip_into_parts
+  Chain.head_into_parts Chain.tail_into_parts Chain.skip_into_parts Chain.hand_over_u
   ObsConc.cstep ObsConc.release ObsConc.is_done
   AsyncLock.astep AsyncLock.async_subscriber_double_count AsyncLock.sem_new AsyncLock.sem_acquire AsyncLock.sem_release
   AsyncGuard.a_init AsyncGuard.a_start AsyncGuard.a_poll AsyncGuard.a_drop_guard AsyncGuard.a_guard_set
   AsyncGuard.call_possible AsyncGuard.a_pad
-  OVecRun.ginit OVecRun.gstep OVecDrain.c_gpoll OVecDrain.env_ops.
+  OVecRun.ginit OVecRun.gstep OVecDrain.c_gpoll OVecDrain.env_ops
+  FullStack.fs_init FullStack.fstep.
